@@ -31,6 +31,7 @@ pub struct RunStats {
     pub unexpected_reference_errors: u64,
     pub sources_named: u64,
     pub wiped_reruns: u64,
+    pub success_counts_checked: u64,
     pub duplicate_reports: u64,
     pub rewritten_outputs: u64,
 }
@@ -1133,6 +1134,30 @@ pub fn check(scn: &C11Scenario, stats: &mut RunStats) -> Result<Vec<Violation>, 
     // an output written more than once in one run still is one output: counted only
     stats.rewritten_outputs += writes_per_path.values().filter(|c| **c > 1).count() as u64;
 
+    // --- report: the number of files announced as processed is the number of outputs that
+    // were written (simulated file system: every successful write is in the op log; a file
+    // the top-level filters exclude counts as processed without an output, so projects with
+    // such filters are left out)
+    if let (Outcome::Done { success, .. }, true, true) =
+        (&a.outcome, scn.backend == Backend::SimFs, lay.excluded.is_empty())
+    {
+        let mirrors: BTreeSet<&String> = lay.mirror.values().collect();
+        let written = writes_per_path.keys().filter(|p| mirrors.contains(*p)).count();
+        if *success != written {
+            violations.push(Violation::new(
+                P,
+                "report",
+                "success-count",
+                format!(
+                    "{} file(s) are announced as successfully processed but {} output(s) were written",
+                    success, written
+                ),
+            ));
+        } else {
+            stats.success_counts_checked += 1;
+        }
+    }
+
     // --- determinism: rerun over the resulting state
     if let Some((outcome2, after2, _log2)) = &a.rerun {
         if let Outcome::Panic(msg) = outcome2 {
@@ -2232,6 +2257,7 @@ impl Property for C11 {
         counters.insert("files_reported_more_than_once".to_owned(), stats.duplicate_reports);
         counters.insert("failing_sources_named_in_report".to_owned(), stats.sources_named);
         counters.insert("reruns_after_output_wipe".to_owned(), stats.wiped_reruns);
+        counters.insert("success_counts_checked".to_owned(), stats.success_counts_checked);
         counters.insert("outputs_written_more_than_once".to_owned(), stats.rewritten_outputs);
         if scn.keep_bad_in_reference {
             counters.insert("convert_require_projects".to_owned(), 1);
